@@ -759,11 +759,17 @@ def rule_loose_to_strict(ctx: Ctx, rep: Report, rule: str, module_prefixes: tupl
                     continue
                 n += 1
                 ok = _rebound_before(fi, x.id, c)
-                rep.ob(rule, f"{q}->{callee.name}({x.id})", ok, fi.where(c), f"`{x.id}` was rebound to its converted form before the call" if ok else
+                if not ok:
+                    # narrowed by an isinstance test on the path: the strict type is what reaches the call
+                    ok = any(pol and str(t).replace(" ", "").startswith(f"isinstance({x.id},") for t, pol in ctx.cfg(fi).facts_at_ast(c))
+                rep.ob(rule, f"{q}->{callee.name}({x.id})", ok, fi.where(c), f"`{x.id}` was rebound to its converted form (or narrowed by isinstance) before the call" if ok else
                        f"`{x.id}: {loose[x.id]}` is handed as it came to `{callee.name}({tp.arg}: {want})`: the other spellings `{loose[x.id].split('|')[0]}` admits are not {want}")
     rep.ob(rule, "scanned", True, "btclib:1", f"{n} loose parameters handed to strict parameters in {module_prefixes}, each after its conversion")
     rep.floor(rule, floor)
 
+
+# the conversions of btclib.utils from a loose spelling to the one strict type: called for the value
+SPELLING_COERCIONS = {"bytes_from_octets", "str_from_string", "bytesio_from_binarydata", "int_from_integer", "int_from_bits"}
 
 _COERCION_SAMPLE = '''
 def f(script, n):
@@ -778,7 +784,7 @@ def discarded_coercions(fn: ast.AST, params: set[str]) -> list[ast.Expr]:
     for st in own_nodes(fn):
         if isinstance(st, ast.Expr) and isinstance(st.value, ast.Call) and st.value.args and isinstance(st.value.args[0], ast.Name) and st.value.args[0].id in params:
             nm = call_name(st.value) or ""
-            if "_from_" not in nm or nm.startswith("assert"):
+            if nm not in SPELLING_COERCIONS:
                 continue
             p_ = st.value.args[0].id
             later = any(isinstance(x, ast.Name) and x.id == p_ and isinstance(x.ctx, ast.Load) and x.lineno > st.lineno for x in own_nodes(fn))
